@@ -1,6 +1,7 @@
-//! See Cargo.toml. `current` = src/window.rs of the ironbeam working tree the harness links;
-//! `legacy` = src/window.rs of the parent of the commit that introduced the offset reduction
-//! (`let off = offset_ms % size_ms;`), when the repo's git history is available.
+//! See Cargo.toml / build.rs. `current` = src/window.rs of the ironbeam working tree the harness links (serde lines
+//! removed); `legacy` = the vendored pre-fix text `harness/chkwin/legacy_window.rs` (`rel = ts - offset_ms`).
+//! This one file is the library of BOTH helper crates: `relwin` (release arithmetic) and `chkwin` (overflow checks
+//! and debug assertions on) — see the `[profile.dev.package.*]` sections of ../Cargo.toml.
 #![allow(dead_code, unused_imports, clippy::all)]
 
 pub mod current {
@@ -9,9 +10,11 @@ pub mod current {
 pub mod legacy {
     include!(concat!(env!("OUT_DIR"), "/legacy.rs"));
 }
-/// false = the pre-fix revision could not be extracted (no git / no history); `legacy` is then a copy of `current`
-pub const LEGACY_AVAILABLE: bool = include!(concat!(env!("OUT_DIR"), "/legacy_available.rs"));
-/// the commit whose parent supplied `legacy` (empty when unavailable)
-pub const LEGACY_PARENT_OF: &str = include!(concat!(env!("OUT_DIR"), "/legacy_commit.rs"));
-/// false = src/window.rs refers to crate-internal items and could not be compiled standalone (`current` is a stub)
+/// false = src/window.rs could not be compiled stand-alone (`current` is a panicking stub); see `CURRENT_REASON`
 pub const CURRENT_AVAILABLE: bool = include!(concat!(env!("OUT_DIR"), "/current_available.rs"));
+pub const CURRENT_REASON: &str = include!(concat!(env!("OUT_DIR"), "/current_reason.rs"));
+/// false = the vendored pre-fix text is missing / not the pre-fix text / does not compile (`legacy` is a stub)
+pub const LEGACY_AVAILABLE: bool = include!(concat!(env!("OUT_DIR"), "/legacy_available.rs"));
+pub const LEGACY_REASON: &str = include!(concat!(env!("OUT_DIR"), "/legacy_reason.rs"));
+/// where the vendored text comes from (recorded in the header of harness/chkwin/legacy_window.rs)
+pub const LEGACY_ORIGIN: &str = "src/window.rs at dfa2e3374cfa (parent of the fix commit a2578065dcd1), vendored as harness/chkwin/legacy_window.rs";
